@@ -55,6 +55,7 @@ PostOk ==
   /\ Chk(last'.sp = Range(Ev.sp), "spawned work items differ from the model's")
   /\ Chk(scheduled' = Range(Ev.st.sched), "scheduled differs")
   /\ Chk(todoImg' = Ev.st.todoImg, "imageinfo_todo differs")
+  /\ Chk(Ev.st.todoRev = <<>> /\ Ev.st.todoPg = <<>>, "revids_todo / pages_todo are filled (not part of today's expanded mode, not modelled)")
   /\ Chk(DOMAIN descTodo' = (IF Ev.st.hasL THEN {"local"} ELSE {}) \cup (IF Ev.st.hasS THEN {"shared"} ELSE {}),
          "imagedescription_todo has other base paths")
   /\ Chk(Ev.st.hasL => descTodo'["local"] = Ev.st.descL, "imagedescription_todo[local] differs")
@@ -79,8 +80,8 @@ ItemAction(it) ==
 TrStep ==
   /\ l <= Len(Tr.ev) /\ Ev.t = "step"
   /\ Chk(\E it \in DOMAIN items : it.k = Ev.k /\ it.a = Ev.a /\ it.h = Ev.h, "no such work item exists in the model at this point")
-  /\ \A it \in DOMAIN items :
-       (it.k = "UB" /\ it.k = Ev.k /\ it.a = Ev.a /\ it.pc = "r1" /\ ~MoreAfter(it.off, RL, UBCount(it)))
+  /\ \A it \in DOMAIN items :          \* diagnosis only: name the usual reason a block's last step is refused
+       (Diagnose /\ Ev.to = "done" /\ it.k = "UB" /\ it.k = Ev.k /\ it.a = Ev.a /\ it.pc = "r1" /\ ~MoreAfter(it.off, RL, UBCount(it)))
          => Chk(IsPermOf(Ev.ord, UBFresh(it)), "the images the block enqueues differ from the images of the complete (merged) answer that are not yet scheduled")
   /\ \E it \in DOMAIN items : it.k = Ev.k /\ it.a = Ev.a /\ it.h = Ev.h /\ ItemAction(it)
   /\ PostOk
